@@ -18,10 +18,11 @@ func init() {
 		Explanation: "Decides three structural clauses: (R1 gate) 'on a document without signatures the operation fails with the no-signatures error and writes nothing': in api.ReadAndValidate the call of RemoveAllSignatures is reached only on the `len(ctx.Signatures) != 0` edge and the empty branch returns ErrNoSignatures when the command is REMOVESIGNATURES; api.RemoveSignatures sets conf.Cmd = REMOVESIGNATURES before reading; api.optimize reaches WriteContext only after ReadValidateAndOptimize returned nil. " +
 			"(R2 key agreement) every constant key that any function of the module deletes from or stores into the document catalog (a value reached through the RootDict field) is a catalog key the validator's own table in validate.validateRootObject knows (plus Type/Version/Extensions/AcroForm/Pages): a misspelt key silently removes nothing. " +
 			"(R3 coverage) XRefTable.RemoveAllSignatures deletes the catalog entries that carry signature state — Perms (DocMDP certification and UR3 usage rights) and DSS — on every path, and removes SigFlags (or the whole AcroForm) when signature fields were dropped. " +
-			"NOT decided: that every signature field and widget is found (walk over Fields/Kids/Annots), that nothing else changes, and the page content.",
+			"(R4 walk) in model.removeSignatureFields a field is dropped (removeSigAnnot) only on the edge where its own or inherited type is Sig, and a field with field kids is kept only after the walk descended into them. NOT decided: widgets of signature fields with several widget kids, that nothing else changes in general, and the page content.",
 		Rules: []string{
 			"C29.R1 MPT: RemoveAllSignatures only when signatures exist; empty => ErrNoSignatures; write only after a successful read",
 			"C29.R2 table agreement: catalog keys written/deleted are keys of the validator's catalog table",
+			"C29.R4 MPT: the field walk drops only /FT /Sig fields and descends into every group before keeping it",
 			"C29.R3 coverage: RemoveAllSignatures deletes Perms and DSS on every path, SigFlags/AcroForm when fields were dropped",
 		},
 		Assumptions: []string{"the validator's catalog table (validate.validateRootObject) lists the ISO 32000 catalog keys"},
@@ -61,6 +62,8 @@ func runC29(c *Ctx) {
 	r.MinInst["C29.R1"] = 4
 	r.MinInst["C29.R2"] = 10
 	r.MinInst["C29.R3"] = 3
+	r.MinInst["C29.R4"] = 2
+	checkSignatureFieldWalk(c)
 
 	// ---------- R1
 	if fn := p.Func("pkg/api.ReadAndValidate"); fn == nil {
@@ -331,4 +334,119 @@ func nearestKey(k string, keys map[string]bool) string {
 		return "-"
 	}
 	return strings.Join(cands, ",")
+}
+
+// ---------------- C29.R4: the field walk removes signature fields at any depth and nothing else ----------------
+//
+// In model.removeSignatureFields (a) removeSigAnnot — the only place a field is dropped together with its widget — is reached
+// only on the edge where the (own or inherited) field type equals "Sig"; (b) from the edge where a field has field kids, every
+// path to `append(arr, indRef)` (keeping the node) passes the recursive call on those kids, so a signature field below an
+// untyped group is still found; (c) the recursion is depth-guarded (C08.R1 covers that).
+func checkSignatureFieldWalk(c *Ctx) {
+	p, r := c.P, c.R
+	fid := "pkg/pdfcpu/model.removeSignatureFields"
+	fn := p.Func(fid)
+	if fn == nil {
+		r.Bad("C29.R4", fid, "anchor", "", "UNRESOLVED-ANCHOR")
+		return
+	}
+	genE := map[Edge][]string{}
+	var kidsEdges []Edge
+	eachInstr(fn, func(_ *ssa.BasicBlock, _ int, i ssa.Instruction) {
+		b, ok := i.(*ssa.BinOp)
+		if !ok {
+			return
+		}
+		if b.Op == token.EQL || b.Op == token.NEQ {
+			if s, ok := constString(b.Y); ok && s == "Sig" {
+				for _, e := range condEdges(b, b.Op == token.EQL) {
+					genE[e] = append(genE[e], "sig")
+				}
+			}
+		}
+		if b.Op == token.GTR || b.Op == token.NEQ {
+			if la := lenArgOf(b.X); la != nil {
+				if k, ok := constInt(b.Y); ok && k == 0 {
+					if call, ok := la.(*ssa.Call); ok {
+						if _, ref := callRef(call); ref == "pkg/pdfcpu/model.fieldKids" {
+							kidsEdges = append(kidsEdges, condEdges(b, true)...)
+						}
+					}
+				}
+			}
+		}
+	})
+	genI := func(i ssa.Instruction) []string {
+		if call, ok := i.(*ssa.Call); ok {
+			if f := staticCallee(call); f != nil && unwrapSynthetic(f) == fn {
+				return []string{"descended"}
+			}
+		}
+		return nil
+	}
+	ff := NewFactFlow(fn, genI, genE, nil, nil)
+	n := 0
+	eachInstr(fn, func(_ *ssa.BasicBlock, _ int, i ssa.Instruction) {
+		call, ok := i.(*ssa.Call)
+		if !ok {
+			return
+		}
+		if _, ref := callRef(call); ref == "pkg/pdfcpu/model.removeSigAnnot" {
+			n++
+			if ff.Holds(i, "sig") {
+				r.OK("C29.R4", fid, "drop only /FT /Sig", p.Pos(call.Pos()), "removeSigAnnot is reached only on the edge where the field type equals \"Sig\"", true)
+			} else {
+				r.Bad("C29.R4", fid, "drop only /FT /Sig", p.Pos(call.Pos()), "a field is dropped (and its widget removed from the page) on a path that did not establish that its type is Sig: non-signature fields disappear from the form")
+			}
+		}
+	})
+	if n == 0 {
+		r.Bad("C29.R4", fid, "drop only /FT /Sig", p.Pos(fn.Pos()), "UNRESOLVED-ANCHOR: removeSigAnnot is not called")
+	}
+	// (b) keep-after-descent
+	if len(kidsEdges) == 0 {
+		r.Bad("C29.R4", fid, "descend into kids", p.Pos(fn.Pos()), "UNRESOLVED-ANCHOR: no `len(fieldKids(...)) > 0` test found")
+		return
+	}
+	bad := ""
+	for _, e := range kidsEdges {
+		seen := map[*ssa.BasicBlock]bool{}
+		var walk func(b *ssa.BasicBlock, done bool)
+		walk = func(b *ssa.BasicBlock, done bool) {
+			if seen[b] && !done {
+				return
+			}
+			if !done {
+				seen[b] = true
+			}
+			for _, in := range b.Instrs {
+				if cc, ok := in.(*ssa.Call); ok {
+					if f := staticCallee(cc); f != nil && unwrapSynthetic(f) == fn {
+						done = true
+					}
+					if bi, ok := cc.Call.Value.(*ssa.Builtin); ok && bi.Name() == "append" && !done {
+						// appending the node itself without having descended
+						bad = p.Pos(cc.Pos())
+					}
+				}
+			}
+			if done {
+				return
+			}
+			for _, s := range b.Succs {
+				if edgeDominates(e, s) {
+					walk(s, done)
+				} else if bad == "" {
+					// leaving the "has field kids" region without having descended
+					bad = p.Pos(lastPos(b))
+				}
+			}
+		}
+		walk(e.From.Succs[e.Succ], false)
+	}
+	if bad == "" {
+		r.OK("C29.R4", fid, "descend into kids", p.Pos(fn.Pos()), "a field with field kids is kept only after the walk descended into the kids", true)
+	} else {
+		r.Bad("C29.R4", fid, "descend into kids", bad, "a field that has field kids can be kept without the walk descending into them: a signature field below such a group (hierarchical names like grp.sig1) survives the removal together with its signature value and widget")
+	}
 }
